@@ -609,6 +609,8 @@ def _complements(model, rep):
         def skv_getitem(self, ix):
             return ("cols", self.name, ix)
     found = 0
+    NPTS = Poly.sym("npoints")
+    TT = Tab("t", (4, Poly.sym("nelements")))
     for c in model.all_classes():
         if not c.path.startswith("skfem/mesh/"):
             continue
@@ -618,11 +620,13 @@ def _complements(model, rep):
                 continue
             found += 1
             obj = Obj(c, {
-                "p": Tab("p", (3, NV)), "facets": Tab("facets", (3, NF)),
+                # stored points: vertices, mid-side nodes of second-order
+                # meshes, unused points - NOT the number of vertices
+                "p": Tab("p", (3, NPTS)), "facets": Tab("facets", (3, NF)),
                 "edges": Tab("edges", (2, NE)), "nvertices": NV,
                 "nfacets": NF, "nedges": NE,
-                "doflocs": Tab("p", (3, NV)),
-                "t": Tab("t", (4, Poly.sym("nelements")))})
+                "doflocs": Tab("p", (3, NPTS)),
+                "t": TT})
             for k2 in ("nodes", "facets", "edges"):
                 obj.attrs[f"boundary_{k2}"] = PyFunc(
                     lambda a, k, n, k2=k2: f"BOUNDARY:{k2}")
@@ -639,10 +643,17 @@ def _complements(model, rep):
                   and isinstance(r[1], tuple) and r[1][0] == "arange"
                   and r[1][1] == Poly() and r[1][2] == count_of[kind]
                   and r[2] == f"BOUNDARY:{kind}")
+            if kind == "nodes" and isinstance(r, tuple) and \
+                    r[0] == "setdiff" and r[2] == "BOUNDARY:nodes" and \
+                    r[1] == ("unique", TT):
+                ok = True       # the vertices the cells use
             _v(rep, R4, ok, f"{m.short()}:complement",
                f"range({count_of[kind]}) minus boundary_{kind}()",
                m.short(), f"interior_{kind}() computes {r!r}, not the "
-               f"complement of boundary_{kind}() in the full index range",
+               f"complement of boundary_{kind}() in the full index range "
+               f"(for nodes: the vertices, range(nvertices) or "
+               f"np.unique(t) - the point array also stores mid-side nodes "
+               f"of second-order meshes and unused points)",
                m.lineno, m.path)
     if found < 2:
         raise AnalysisError(f"{found} interior_* methods found")
@@ -880,6 +891,9 @@ def run(model: Model, rep, tier: str) -> None:
 
 _R = "skfem/refdom.py"
 MUTANTS = [
+    ("interior nodes complemented among all stored points",
+     ("skfem/mesh/mesh.py", "        return np.setdiff1d(np.unique(self.t), self.boundary_nodes())",
+      "        return np.setdiff1d(np.arange(0, self.p.shape[1]),\n                            self.boundary_nodes())"), "C11-R4"),
     ("interior edges of 3-D meshes defined as 'touching an interior vertex'",
      ("skfem/mesh/mesh_3d.py",
       "        return np.setdiff1d(np.arange(self.edges.shape[1], "
